@@ -9,7 +9,6 @@ import (
 	"encoding/json"
 	"fmt"
 	"os"
-	"os/exec"
 	"path/filepath"
 	"sort"
 	"strings"
@@ -28,6 +27,7 @@ import (
 	"github.com/tendermint/tendermint/libs/log"
 	tmcrypto "github.com/tendermint/tendermint/proto/tendermint/crypto"
 	tmproto "github.com/tendermint/tendermint/proto/tendermint/types"
+	"verifharness/internal/common"
 )
 
 // Key is a deterministic secp256k1 key.
@@ -168,9 +168,8 @@ func OpenNode(root string) (n *Node, err error) {
 // CloneRestart copies the data directory and opens a new application on the copy
 // (RigoApp.Stop leaks LevelDB locks, so a directory cannot be reopened in-process).
 func (n *Node) CloneRestart(newRoot string) (*Node, error) {
-	_ = os.RemoveAll(newRoot)
-	if out, err := exec.Command("cp", "-r", n.Root, newRoot).CombinedOutput(); err != nil {
-		return nil, fmt.Errorf("cp: %v %s", err, out)
+	if err := common.CopyDirStable(n.Root, newRoot); err != nil {
+		return nil, err
 	}
 	// LOCK files of the still-open source are just files; goleveldb takes a fresh flock on the copy
 	return OpenNode(newRoot)
